@@ -585,6 +585,7 @@ func c19Gateway(c *fw.Ctx, g *c11Gen, model *c11Model) {
 	defer okT[0].Close()
 	defer okT[1].Close()
 	c19GatewaySweep(c, okT[0], okT[1])
+	c19GatewayAtLimit(c)
 	// every Stream method for every RPC object over the established mux
 	for _, ct := range c11Types() {
 		if !strings.HasPrefix(ct.goName, "gateway.RPC") {
@@ -1018,4 +1019,52 @@ func c19Rhp3(c *fw.Ctx, g *c11Gen, k c11Consts) {
 	}
 	c19Rhp3Sweep(c, g, k, rt, ht)
 	c19Rhp3Sequences(c, g, k, rt, ht)
+}
+
+// c19GatewayAtLimit: the gateway objects whose size is fixed by the protocol's own element limits (100 transaction
+// hashes per SendTransactions request, 32 history ids per SendV2Blocks request, Max headers per SendHeaders response)
+// at exactly those limits: the encoding must fit the length the receiving side allows. The counts are committed here
+// (they are the ones for which the pinned code's length expressions are exact fits), not read from the code under
+// test. RPCShareNodes is left out: its limit (100*128) is not an exact fit of any (count, length) pair, so no
+// protocol limit can be read off it.
+func c19GatewayAtLimit(c *fw.Ctx) {
+	res := c.Res
+	type lim struct {
+		name string
+		obj  gateway.Object
+		resp bool
+	}
+	var cases []lim
+	for _, n := range []int{0, 1, 99, 100} {
+		cases = append(cases, lim{fmt.Sprintf("RPCSendTransactions.Request[%d hashes]", n), &gateway.RPCSendTransactions{Hashes: make([]types.Hash256, n)}, false})
+	}
+	for _, n := range []int{0, 1, 31, 32} {
+		cases = append(cases, lim{fmt.Sprintf("RPCSendV2Blocks.Request[%d ids]", n), &gateway.RPCSendV2Blocks{History: make([]types.BlockID, n), Max: 10}, false})
+	}
+	for _, n := range []int{0, 1, 10, 2000} {
+		cases = append(cases, lim{fmt.Sprintf("RPCSendHeaders.Response[%d headers]", n), &gateway.RPCSendHeaders{Max: uint64(n), Headers: make([]types.BlockHeader, n)}, true})
+	}
+	cases = append(cases,
+		lim{"RPCSendHeaders.Request", &gateway.RPCSendHeaders{Max: ^uint64(0)}, false},
+		lim{"RPCSendCheckpoint.Request", &gateway.RPCSendCheckpoint{}, false},
+		lim{"RPCRelayV2Header.Request", &gateway.RPCRelayV2Header{}, false},
+	)
+	for _, lc := range cases {
+		var buf bytes.Buffer
+		e := types.NewEncoder(&buf)
+		gateway.VerifCodec{O: lc.obj, Response: lc.resp}.EncodeTo(e)
+		e.Flush()
+		limit := gateway.VerifMaxRequestLen(lc.obj)
+		if lc.resp {
+			limit = gateway.VerifMaxResponseLen(lc.obj)
+		}
+		res.Eval("gateway-at-limit "+lc.name, true)
+		res.Count("gateway:at-limit")
+		if buf.Len() > limit {
+			tname := strings.SplitN(lc.name, "[", 2)[0]
+			c19Violate(c, "c19-maxlen-too-small:gateway."+tname+":at-protocol-limit",
+				fmt.Sprintf("a %s within the protocol's own limits encodes to %d bytes, more than the %d the receiver allows", lc.name, buf.Len(), limit),
+				map[string]any{"kind": "gateway-at-limit", "case": lc.name}, fmt.Sprintf("<= %d", limit), fmt.Sprint(buf.Len()))
+		}
+	}
 }
